@@ -395,6 +395,8 @@ class Server:
         sasl = self.sasl
         if self.tls and self.post_tls_sasl is not None:
             sasl = self.post_tls_sasl
+        if sasl == "absent":
+            sasl = None  # no SASL capability line at all in this listing
         if sasl is not None:
             out += b'"SASL" ' + quoted(" ".join(sasl).encode()) + CRLF
         out += b'"SIEVE" "fileinto vacation"\r\n'
@@ -695,6 +697,8 @@ class Server:
         announced = self.sasl
         if self.tls and self.post_tls_sasl is not None:
             announced = self.post_tls_sasl
+        if announced == "absent":
+            announced = ()
         self.log.append(("auth-attempt", mech, self.tls))
         if announced is None or mech not in announced:
             self.violation("AUTHENTICATE with mechanism %s that was not announced (%r)" % (
